@@ -455,6 +455,29 @@ fn keyed_map(n: usize, k: &[u8], at: &[usize]) -> Vec<u8> {
 /// lookups of one (interned) name in several objects where it sits at different positions, once and
 /// twice: the answer is the first match in *this* object, whatever was found where before
 fn lookup_position_cases(rec: &mut Rec, label: &str) {
+    // lookups by cached ids whose handles are slices of one static string
+    {
+        rec.case(label);
+        rec.bump("doc:cached-slices");
+        let name = b"customerId";
+        let mut doc = vec![0x83u8];
+        mp_str(&mut doc, b"customer");
+        doc.push(0x01);
+        mp_str(&mut doc, name);
+        doc.push(0x02);
+        mp_str(&mut doc, b"");
+        doc.push(0x03);
+        rec.op(&format!("init {}", hex0(&doc)));
+        rec.op("root");
+        for k in [8usize, 10, 0, 10, 8] {
+            let a = rec.op(&format!("cachedp {} {}", hex0(name), k));
+            if let Some(id) = a.strip_prefix("id ") {
+                rec.op(&format!("aiprop h0 {}", id));
+                rec.op(&format!("iprop h0 {}", id));
+            }
+            rec.op(&format!("prop h0 {}", hex0(&name[..k])));
+        }
+    }
     let k = b"kk";
     for p in 1..=3usize {
         for q in 0..p {
@@ -1231,7 +1254,7 @@ fn gen_writes(rec: &mut Rec, rng: &mut Rng, cases: u64, keep_going: bool) {
     // declared lengths that do not fit 32 bits (64-bit callers can pass them): the container is closed
     // only by as many entries as were declared, never by the length taken modulo 2^32
     if cfg!(target_pointer_width = "64") {
-        for &(m, k) in &[(1u64, 0u64), (1, 1), (1, 2), (2, 1), (1, 15), (1, 16), (3, 0)] {
+        for &(m, k) in &[(2u64, 0u64), (2, 1), (2, 2), (4, 1), (2, 15), (2, 16), (6, 0), (1, 0), (1, 1), (1, 2), (3, 1), (1, 16)] {
             for obj in [false, true] {
                 for nested in [false, true] {
                     rec.case(if keep_going { "c03" } else { "c02" });
@@ -1240,7 +1263,8 @@ fn gen_writes(rec: &mut Rec, rng: &mut Rng, cases: u64, keep_going: bool) {
                     if nested {
                         rec.op("w arr 2");
                     }
-                    let l = m * (1u64 << 32) + k;
+                    // multiples of 2^31 (a doubled or shifted count loses its top bit) and of 2^32, plus k
+                    let l = m * (1u64 << 31) + k;
                     rec.op(&format!("w {} {}", if obj { "obj" } else { "arr" }, l));
                     for i in 0..k {
                         if obj {
@@ -1255,6 +1279,24 @@ fn gen_writes(rec: &mut Rec, rng: &mut Rng, cases: u64, keep_going: bool) {
                 }
             }
         }
+    }
+    // strings by cached id where the handles are slices of one static string (same address, different lengths)
+    {
+        rec.case(if keep_going { "c03" } else { "c02" });
+        rec.bump("cached-slices-of-one-static");
+        let base = b"discountApplicationStrategy";
+        rec.op("init c0");
+        let a = rec.op(&format!("cachedp {} {}", hex0(base), base.len()));
+        let b = rec.op(&format!("cachedp {} 8", hex0(base)));
+        let c = rec.op(&format!("cachedp {} 0", hex0(base)));
+        let id = |x: &str| x.strip_prefix("id ").unwrap_or("0").to_string();
+        rec.op("w arr 4");
+        rec.op(&format!("w istr {}", id(&a)));
+        rec.op(&format!("w istr {}", id(&b)));
+        rec.op(&format!("w istr {}", id(&c)));
+        rec.op(&format!("w str {}", hex0(b"discount")));
+        rec.op("w endarr");
+        rec.op("fin");
     }
     for ci in 0..cases {
         rec.case(if keep_going { "c03" } else { "c02" });
@@ -1521,6 +1563,24 @@ fn gen_logs(rec: &mut Rec, rng: &mut Rng, cases: u64, thorough: bool) {
                 rec.op(&format!("log {} {}", len, seed));
             }
             rec.op("logs?");
+            // the other things an invocation does in between leave the log alone: writes (accepted and rejected),
+            // finalisation (also of a complete output, also twice), reads, interning
+            if rng.chance(1, 6) {
+                for _ in 0..rng.range(1, 4) {
+                    let l = match rng.below(8) {
+                        0 => "w null".to_string(),
+                        1 => "fin".to_string(),
+                        2 => "w arr 1".to_string(),
+                        3 => "root".to_string(),
+                        4 => format!("intern {}", hex0(&mp::gen_key(rng))),
+                        5 => "out?".to_string(),
+                        6 => "w bool 1".to_string(),
+                        _ => "fin".to_string(),
+                    };
+                    rec.op(&l);
+                }
+                rec.op("logs?");
+            }
             // now and then a new invocation starts on the same thread: the ring starts empty again
             if rng.chance(1, 12) {
                 rec.op("init c0");
@@ -1872,6 +1932,24 @@ fn gen_intern(rec: &mut Rec, rng: &mut Rng, cases: u64) {
                     // interleave with the previous handle: A, B, A
                     rec.op(&format!("{} {}", label, hex0(names[i - 1].as_bytes())));
                 }
+            }
+        }
+    }
+    // handles on slices of one static string: the same start address names different strings
+    for base in ["discountApplicationStrategy", "ab", "xxxxxxxxxxxxxxxxxxxxxxxxxxxxxxxxxxxxxxxx"] {
+        rec.case("c12");
+        rec.bump("cached-slices-of-one-static");
+        rec.op("init c0");
+        let n = base.len();
+        let mut ks: Vec<usize> = vec![n, 8.min(n), 0, 1, n - 1, n, 8.min(n)];
+        ks.dedup();
+        for &k in &ks {
+            let a = rec.op(&format!("cachedp {} {}", hex0(base.as_bytes()), k));
+            if let Some(id) = a.strip_prefix("id ") {
+                // what the id writes is the slice, byte for byte
+                rec.op("init c0");
+                rec.op(&format!("w istr {}", id));
+                rec.op("fin");
             }
         }
     }
